@@ -57,8 +57,7 @@ def direct(ctx, nb, zero, targets_kind, b, df=0.25, deprecated=False, default_ta
         # targets one unit in the last place away from a Fourier frequency (a grid computed by another formula, e.g.
         # rfftfreq vs arange/(n dt)): the quotient f/fc is not 1 but may round to it, and log10 f - log10 fc may be 0
         import math as _m
-        targets = [_m.nextafter(nz[0], _m.inf), _m.nextafter(nz[len(nz) // 2], 0.0), _m.nextafter(nz[-1], _m.inf),
-                   _m.nextafter(_m.nextafter(nz[-1], 0.0), 0.0)]
+        targets = [_m.nextafter(f, _m.inf) for f in nz] + [_m.nextafter(f, 0.0) for f in nz]
     elif targets_kind == 'outside':
         targets = [nz[0] * 0.31, nz[-1] * 2.9]
     else:
@@ -188,7 +187,8 @@ def obligations(tier, seed):
     yield Ob('direct', {'nb': 4, 'zero': True, 'targets_kind': 'on', 'b': 40, 'deprecated': True})
     yield Ob('direct', {'nb': 4, 'zero': True, 'targets_kind': 'on', 'b': 40, 'default_targets': True})
     yield Ob('direct', {'nb': 3, 'zero': False, 'targets_kind': 'on', 'b': 20, 'df': 0.1})
-    for nb, df in ((4, 0.1), (5, 0.3), (9, 1.0 / 3.0), (6, 0.25)):
+    # grids on which log10 of a node and of its neighbouring double coincide for several nodes (checked: 7.3, 12.5, 3.4, 0.02)
+    for nb, df in ((4, 7.3), (5, 12.5), (4, 3.4), (6, 0.02), (5, 0.25)):
         for b in (40, 188.5):
             yield Ob('direct', {'nb': nb, 'zero': nb % 2 == 0, 'targets_kind': 'ulp', 'b': b, 'df': df}, query_ms=60000)
     for npts, targets in ((4, [0.5, 1.0, 1.3]), (7, [1.0, 0.7, 1.5]), (8, [0.5, 1.5])):
